@@ -8,6 +8,9 @@ package common
 //@ spec Pos(dec *Decoder) mathint = bytes.rdpos(*dec.buf)
 //@ spec Len(dec *Decoder) mathint = bytes.rdlen(*dec.buf)
 //@ spec Rest(dec *Decoder) mathint = bytes.rdlen(*dec.buf) - bytes.rdpos(*dec.buf)
+//@ -- Content(dec): the byte string being decoded (immutable); Win(dec, pos, n): its n bytes at absolute position pos (bytesreader.spec). Added for C06.
+//@ spec Content(dec *Decoder) mathint = bytes.rdseq(*dec.buf)
+//@ spec Win(dec *Decoder, pos mathint, n mathint) mathint = bytes.rdwin(bytes.rdseq(*dec.buf), pos, n)
 
 //@ -- Read(b): all-or-error. A short read returns a NON-EOF error and leaves the reader drained (this is what F3 is about).
 //@ func (dec *Decoder) Read
@@ -18,6 +21,7 @@ package common
 //@   ensures [ok] len(b) <= old(Rest(dec)) && (len(b) == 0 || old(Rest(dec)) > 0) ==> result == nil && Pos(dec) == old(Pos(dec)) + len(b)
 //@   ensures [eof] len(b) > 0 && old(Rest(dec)) <= 0 ==> result == io.EOF && Pos(dec) == old(Pos(dec))
 //@   ensures [short] len(b) > old(Rest(dec)) && old(Rest(dec)) > 0 ==> result != nil && result != io.EOF && Pos(dec) == Len(dec)
+//@   ensures [content] Content(dec) == old(Content(dec)) && (result == nil ==> seq(b) == Win(dec, old(Pos(dec)), len(b)))   -- C06: b receives the next len(b) bytes
 
 //@ func (dec *Decoder) ReadUint64
 //@   property C07, C06
@@ -35,6 +39,7 @@ package common
 //@   ensures [len] Len(dec) == old(Len(dec)) && Pos(dec) <= Len(dec)
 //@   ensures [ok] err == nil ==> Pos(dec) == old(Pos(dec)) + 2 && result0 <= MaximumEncodingInt
 //@   ensures [fail] 2 > old(Rest(dec)) ==> err != nil
+//@   ensures [value] Content(dec) == old(Content(dec)) && (err == nil ==> Be16(result0) == Win(dec, old(Pos(dec)), 2))   -- C06: the value whose big-endian string is the 2 bytes read
 
 //@ func (dec *Decoder) ReadInt
 //@   property C07, C06
@@ -42,6 +47,7 @@ package common
 //@   modifies *dec.buf
 //@   ensures [len] Len(dec) == old(Len(dec)) && Pos(dec) <= Len(dec)
 //@   ensures [ok] err == nil ==> Pos(dec) == old(Pos(dec)) + 2 && 0 <= result0 && result0 <= MaximumEncodingInt
+//@   ensures [value] Content(dec) == old(Content(dec)) && (err == nil ==> Be16(result0) == Win(dec, old(Pos(dec)), 2))   -- C06
 
 //@ func (dec *Decoder) ReadRoundReferences
 //@   property C07
